@@ -16,11 +16,15 @@ Inductive pexpr :=
   | PVar (n : nat)                       (* n-th integer variable of the environment *)
   | PBin (o : pbin) (a b : pexpr)
   | PNeg (a : pexpr).
+(* ast.BoolOp carries ONE operator and a LIST of operands: `a and b and c` is
+   BoolOp(And, [a; b; c]) (CPython's parser produces lists of length >= 2; explicit parentheses
+   nest).  Operands are evaluated left to right until one decides. *)
 Inductive pcond :=
   | PCmp (o : pcmp) (a b : pexpr)
-  | PAnd (a b : pcond)                   (* a and b : b is evaluated only when a is true *)
-  | POr (a b : pcond)                    (* a or b  : b is evaluated only when a is false *)
+  | PBoolOp (isand : bool) (vs : list pcond)
   | PNot (a : pcond).
+Definition PAnd (a b : pcond) : pcond := PBoolOp true [a; b].
+Definition POr (a b : pcond) : pcond := PBoolOp false [a; b].
 
 Definition in64 (z : Z) : bool := (- 2 ^ 63 <=? z) && (z <? 2 ^ 63).
 Definition chk64 (z : Z) : option Z := if in64 z then Some z else None.
@@ -60,7 +64,17 @@ Fixpoint eval64 (env : list Z) (e : pexpr) : option Z :=
   | PNeg a => match eval64 env a with Some x => chk64 (- x) | None => None end
   end.
 
-(* left-to-right, short-circuit; None = an evaluated operand raised / left the range *)
+(* left-to-right, short-circuit; None = an evaluated operand raised / left the range.
+   `and`: the first false operand decides, else true; `or`: the first true one, else false *)
+Definition chain_eval (f : pcond -> option bool) (isand : bool) : list pcond -> option bool :=
+  fix go (l : list pcond) : option bool :=
+  match l with
+  | [] => Some isand
+  | x :: r => match f x with
+              | None => None
+              | Some v => if Bool.eqb v isand then go r else Some v
+              end
+  end.
 Fixpoint evalc64 (env : list Z) (c : pcond) : option bool :=
   match c with
   | PCmp o a b =>
@@ -68,10 +82,7 @@ Fixpoint evalc64 (env : list Z) (c : pcond) : option bool :=
       | None => None
       | Some x => match eval64 env b with Some y => Some (py_cmp o x y) | None => None end
       end
-  | PAnd a b => match evalc64 env a with
-                | Some true => evalc64 env b | Some false => Some false | None => None end
-  | POr a b => match evalc64 env a with
-               | Some false => evalc64 env b | Some true => Some true | None => None end
+  | PBoolOp isand vs => chain_eval (evalc64 env) isand vs
   | PNot a => match evalc64 env a with Some v => Some (negb v) | None => None end
   end.
 
